@@ -43,7 +43,13 @@ def make_blobs():
     return out
 
 
-ALPHABET = ["L", "Ua55", "Ua60", "Ua31", "Un55", "Ub55", "Ua77", "Ua5v", "P", "Pn", "Pq"]
+ALPHABET = ["L", "Ua55", "Ua60", "Ua31", "Un55", "Ub55", "Ua77", "Ua5v", "P", "Pn", "Pq", "Xa60", "Xa77"]
+# "X…": unprotect of a DAMAGED copy of that blob (last content octet flipped): the key is obtained as for the intact blob, then decryption
+# fails — what was obtained on the way still covers its position for later calls
+
+
+def damaged(blob):
+    return blob[:-1] + bytes([blob[-1] ^ 0x01])
 
 
 def covered_by_history(done_ops, op, blobs, dc_now):
@@ -56,7 +62,7 @@ def covered_by_history(done_ops, op, blobs, dc_now):
         return None                      # protect naming the root key goes to the cache for `now`; covered only by position (handled below)
     _, _, (l0, l1, l2), sid = blobs[op[1:]]
     for prev in done_ops:
-        if prev[0] == "U":
+        if prev[0] in "UX":
             _, _, (p0, p1, p2), psid = blobs[prev[1:]]
             if (p0, psid) == (l0, sid) and (l1, l2) <= (p1, p2):
                 return True
@@ -80,6 +86,14 @@ def run_history(ctx, ops, blobs, use_async=False):
                 out = sim.unprotect(blob, use_async=use_async)
                 if out != "done " + hx(pt):
                     ctx.violation("unprotect on a shared cache does not return the plaintext a fresh cache returns", {"history": ops, "op": op, "async": use_async}, out, "done " + hx(pt))
+                if must_not_call and sim.dc_calls != n0:
+                    ctx.violation("DC contacted again for a position already covered", {"history": ops, "op": op, "async": use_async}, f"{sim.dc_calls - n0} GetKey call(s)", "0")
+            elif op[0] == "X":
+                blob, pt, pos, sid = blobs[op[1:]]
+                must_not_call = covered_by_history(done, "U" + op[1:], blobs, dc.now)
+                out = sim.unprotect(damaged(blob), use_async=use_async)
+                if not out.startswith("err "):
+                    ctx.violation("a damaged blob does not fail to decrypt", {"history": ops, "op": op, "async": use_async}, out, "error")
                 if must_not_call and sim.dc_calls != n0:
                     ctx.violation("DC contacted again for a position already covered", {"history": ops, "op": op, "async": use_async}, f"{sim.dc_calls - n0} GetKey call(s)", "0")
             elif op in ("P", "Pn", "Pq"):
@@ -164,7 +178,7 @@ def run(ctx):
     blobs = make_blobs()
     cases = []
     depth = 5 if ctx.thorough else 4
-    small = ["L", "Ua55", "Ua60", "Un55", "Ub55", "Ua77", "Ua5v", "P", "Pn", "Pq"]
+    small = ["L", "Ua55", "Ua60", "Un55", "Ub55", "Ua77", "Ua5v", "P", "Pn", "Pq", "Xa60"]
     n = 0
     for d in range(1, depth + 1):
         if d <= 3:
